@@ -13,7 +13,7 @@ FLAV_RE = re.compile(r'\b(sync_digraph|sync_ungraph|digraph|ungraph)::')
 IGNORE = re.compile(
     r'^(std::clone::Clone::clone|<.* as std::clone::Clone>::clone|std::ops::Deref::deref|std::ops::DerefMut::deref_mut|<.* as std::ops::Deref(Mut)?>::deref(_mut)?|'
     r'std::cell::RefCell::(borrow|borrow_mut|new)|std::sync::RwLock::(read|write|new)|std::convert::(Into::into|From::from|AsRef::as_ref)|<.* as std::convert::(From|Into).*|'
-    r'std::ops::Try::branch|std::ops::FromResidual::from_residual|<.* as std::ops::(Try|FromResidual).*|core::fmt::.*|std::fmt::.*|core::panicking::.*|std::rt::.*|'
+    r'std::ops::Try::branch|std::ops::FromResidual::from_residual|<.* as std::ops::(Try|FromResidual).*|core::fmt::(?!rt::Argument::new_).*|std::fmt::(?!Arguments::new).*|core::panicking::.*|std::rt::.*|'
     r'std::iter::IntoIterator::into_iter|<I as std::iter::IntoIterator>::into_iter|alloc::fmt::format|std::fmt::format|std::boxed::.*|alloc::alloc::.*|std::hint::.*|'
     r'core::intrinsics::.*|std::intrinsics::.*|std::mem::size_of|std::mem::size_of_val|std::option::Option::(unwrap|expect)|std::result::Result::(unwrap|expect)|'
     r'std::string::String::(new|push|push_str)|std::borrow::Borrow::borrow|std::ptr::.*|std::mem::MaybeUninit.*|std::slice::.*into_vec.*)$')
@@ -21,7 +21,7 @@ IGNORE = re.compile(
 
 ALPHABET = re.compile(r'^<?&?(F::|gdsl::|std::vec::Vec|std::collections::|HSET|HMAP|\[T\]|PTR|WPTR|CELL|std::cmp::|std::iter::|<std::\S+ as std::iter::|'
                       r'std::option::Option|std::result::Result|std::mem::(swap|replace|take)|serde::|<\S+ as serde::|std::default::Default|<\S+ as std::default::Default>|'
-                      r'std::ops::(Index|IndexMut|Fn|FnMut|FnOnce)|<\S+ as std::ops::Index|std::hash::|std::marker::PhantomData)')
+                      r'std::ops::(Index|IndexMut|Fn|FnMut|FnOnce)|<\S+ as std::ops::Index|std::hash::|std::marker::PhantomData|core::fmt::rt::Argument::new_|std::fmt::Arguments::new)')
 
 
 def unflav(s):
@@ -138,6 +138,8 @@ def bag(F, b):
             ctx_cache[bi] = tuple(sorted(set(c)))
         return ctx_cache[bi]
     ev = collections.Counter()
+    sig_tys = [F.types[b['locals'][i]]['s'] for i in range(0, b['argc'] + 1)]
+    fmt_relevant = any(('std::string::String' in x) or ('std::fmt::Formatter' in x) or ('std::fmt::Error' in x) for x in sig_tys)
     for bi, bb in enumerate(b['blocks']):
         if bb['cleanup'] or bi not in R:
             continue
@@ -172,6 +174,8 @@ def bag(F, b):
             if name.startswith('<indirect'):
                 name = 'INDIRECT'
             nn = normname(name)
+            if (nn.startswith('core::fmt::rt::Argument::new_') or nn.startswith('std::fmt::Arguments::new')) and not fmt_relevant:
+                continue   # formatting matters where text is the function's product (String / Formatter), not in diagnostics
             # closed event alphabet: crate-local calls, user code (trait calls on K/N/E, callbacks) and a fixed table of std
             # collection / pointer / comparison / iterator / serde operations; any other std call (printing, env, strings) is not an event
             if not (t.get('local') or t.get('rk') in ('unresolved', 'virtual', 'indirect') or nn == 'INDIRECT' or ALPHABET.match(nn)):
